@@ -62,6 +62,7 @@ func stopScenarios(c *core.Ctx, hidx int, planLen, ntx int, reps int) []stopScn 
 			add(faultSpec{Kind: "handler-err", At: j, Lock: lock})
 			add(faultSpec{Kind: "handler-err", At: j, Lock: lock, Slow: 300})
 			add(faultSpec{Kind: "cancel-handler", At: j, Lock: lock})
+			add(faultSpec{Kind: "handler-err-cancel", At: j, Lock: lock})
 		}
 		add(faultSpec{Kind: "cancel-blocked", At: j})
 	}
@@ -69,6 +70,8 @@ func stopScenarios(c *core.Ctx, hidx int, planLen, ntx int, reps int) []stopScn 
 		for _, lock := range []bool{false, true} {
 			add(faultSpec{Kind: "mapper-err", At: n, Lock: lock})
 			add(faultSpec{Kind: "mapper-count", At: n, Lock: lock})
+			add(faultSpec{Kind: "mapper-err-cancel", At: n, Lock: lock})
+			add(faultSpec{Kind: "mapper-count-cancel", At: n, Lock: lock})
 		}
 	}
 	for _, kind := range preconnKinds {
